@@ -12,6 +12,7 @@ from __future__ import annotations
 import asyncio
 from datetime import timedelta
 from typing import Any
+from unittest import mock
 
 from hypothesis import strategies as st
 
@@ -28,6 +29,10 @@ from frequenz.sdk.timeseries.formula_engine._formula_generators import (
     PVPowerFormula,
 )
 
+from frequenz.sdk.timeseries.formula_engine._formula_generators._fallback_formula_metric_fetcher import (
+    FallbackFormulaMetricFetcher,
+)
+
 from .. import fakes, world
 from ..core import Verdict
 
@@ -42,7 +47,8 @@ RULE = {
         "fallback samples of a tick are delivered before or after the primary sample or up to 2 ticks late; optionally one "
         "primary stream is closed at a tick, and in a third of the cases 1-2 (term, tick) pairs are drawn at which the primary's "
         "receive() raises a ReceiverError that is not a stop instead of delivering that tick's sample (the registry hands the "
-        "formula receivers wrapped by the harness; the stream continues afterwards). The harness serves every ComponentMetricRequest (also those of the lazily started "
+        "formula receivers wrapped by the harness; the stream continues afterwards); in a quarter of the cases the same is done "
+        "to 1-2 (term, tick) pairs of the term's *fallback* fetcher (its sample of that tick is replaced by the error). The harness serves every ComponentMetricRequest (also those of the lazily started "
         "fallback formulas) from the tick after it is made. Primary of term j carries (k+1)*10^(5j), inverter i carries that "
         "*10*(i+1), so the source and the tick of every output are identifiable. Oracle per output timestamp t: each term is "
         "its primary if valid (delivered, not closed, not raising at t), else the sum of its valid fallback inverters if the fallback was started before t and one is "
@@ -58,7 +64,8 @@ ASSUMPTIONS = [
     "when neither source of a term is valid at a tick nothing is demanded of that tick's value",
 ]
 MIN_LABELS = {"C19": {"fail_recover_fail": 0.1, "fallback_lag": 0.3, "primary_closed": 0.1, "two_terms": 0.3, "family_battery": 0.1,
-                      "primary_transient_error": 0.15, "transient_error_while_fallback_running_then_primary_continues": 0.03}}
+                      "primary_transient_error": 0.15, "transient_error_while_fallback_running_then_primary_continues": 0.03,
+                      "fallback_transient_error": 0.08, "fallback_needed_again_after_its_transient_error": 0.04}}
 
 
 class _TransientError:
@@ -81,6 +88,26 @@ class _FlakyReceiver(Receiver[Any]):
         msg = self._inner.consume()
         if msg is _TRANSIENT:
             raise ReceiverError("transient receive failure injected by the harness", self)
+        return msg
+
+
+class _TickFlaky(Receiver[Any]):
+    """Wraps a fallback fetcher's receiver: the sample of a listed tick is replaced by a transient ReceiverError."""
+
+    def __init__(self, inner: Receiver[Any], ticks: set[int], hit: set[int]) -> None:
+        self._inner = inner
+        self._ticks = ticks
+        self._hit = hit
+
+    async def ready(self) -> bool:
+        return await self._inner.ready()
+
+    def consume(self) -> Any:
+        msg = self._inner.consume()
+        k = round((msg.timestamp - world.T0).total_seconds())
+        if k in self._ticks and k not in self._hit:
+            self._hit.add(k)
+            raise ReceiverError("transient fallback failure injected by the harness", self)
         return msg
 
 
@@ -120,7 +147,13 @@ def _case(draw: Any, max_ticks: int) -> dict[str, Any]:
         # the primary's receive() raises a ReceiverError that is not a stop, once, instead of delivering the tick's sample
         errors = draw(st.lists(st.tuples(st.integers(0, nterms - 1), st.integers(0, nticks - 1)).map(list),
                                min_size=1, max_size=2, unique_by=tuple))
+    fb_errors = []
+    if draw(st.integers(0, 3)) == 0:
+        # the term's fallback fetcher raises a ReceiverError that is not a stop instead of delivering its sample of that tick
+        fb_errors = draw(st.lists(st.tuples(st.integers(0, nterms - 1), st.integers(1, nticks - 1)).map(list),
+                                  min_size=1, max_size=2, unique_by=tuple))
     return {
+        "fb_errors": fb_errors,
         "errors": errors,
         "family": draw(st.sampled_from(["pv", "pv", "battery"])),
         "ninv": ninv,
@@ -151,6 +184,8 @@ def run_case(case: Any, pid: str) -> Verdict:
     nterms, nticks = len(ninv), len(script)
     close = case["close"]
     errors = {(j, k) for j, k in case.get("errors", [])}
+    fb_errors = {(j, k) for j, k in case.get("fb_errors", [])}
+    fb_hit: dict[int, set[int]] = {}
     meter_id = [10 * (j + 1) for j in range(nterms)]
     inv_id = [[10 * (j + 1) + i + 1 for i in range(ninv[j])] for j in range(nterms)]
     term_of: dict[int, tuple[int, int | None]] = {}
@@ -183,7 +218,20 @@ def run_case(case: Any, pid: str) -> Verdict:
                     conns.add(Connection(cid, 100 + cid))
                     device_ids.add(100 + cid)
         api = fakes.FakeApi(comps, conns)
-        with fakes.connection(fakes.build_graph(comps, conns), api):
+        orig_start = FallbackFormulaMetricFetcher.start
+
+        def flaky_start(fetcher: Any) -> None:
+            orig_start(fetcher)
+            ids = fetcher._formula_generator._config.component_ids or set()  # pylint: disable=protected-access
+            terms = {term_of[c if c in term_of else c - 100][0] for c in ids if c in term_of or c - 100 in term_of}
+            if len(terms) == 1:
+                j_fb = terms.pop()
+                ticks = {k for (jj, k) in fb_errors if jj == j_fb}
+                if ticks:
+                    fetcher._receiver = _TickFlaky(fetcher._receiver, ticks, fb_hit.setdefault(j_fb, set()))  # pylint: disable=protected-access
+
+        with fakes.connection(fakes.build_graph(comps, conns), api), \
+                mock.patch.object(FallbackFormulaMetricFetcher, "start", flaky_start):
             registry = _FlakyRegistry(name="c19")
             sub_chan: Any = Broadcast(name="c19-sub")
             sub_rx = sub_chan.new_receiver(limit=10000)
@@ -312,7 +360,7 @@ def run_case(case: Any, pid: str) -> Verdict:
             closed_now = (close is not None and close[0] == j and k >= close[1]) or (j, k) in errors
             if row[0] and not closed_now:
                 expected = None if expected is None else expected + _primary_val(j, k)
-            elif fb_from[j] is not None and fb_from[j] <= k and any(row[1:]):
+            elif fb_from[j] is not None and fb_from[j] <= k and any(row[1:]) and (j, k) not in fb_errors:
                 expected = None if expected is None else expected + sum(
                     _inv_val(j, i, k) for i in range(ninv[j]) if row[1 + i])
             else:
@@ -343,6 +391,11 @@ def run_case(case: Any, pid: str) -> Verdict:
         v.labels.add("primary_closed")
     if errors:
         v.labels.add("primary_transient_error")
+    if any(fb_hit.values()):
+        v.labels.add("fallback_transient_error")
+        for j, hit in fb_hit.items():
+            if hit and any(not script[k][j][0] and any(script[k][j][1:]) for k in range(max(hit) + 1, nticks)):
+                v.labels.add("fallback_needed_again_after_its_transient_error")
     if any(fb_from[j] is not None and fb_from[j] < k < nticks - 1 and (close is None or close[0] != j or k < close[1])
            for (j, k) in errors):
         v.labels.add("transient_error_while_fallback_running_then_primary_continues")
